@@ -25,7 +25,7 @@ RULE = ("shapes of 0-6 dimensions with sizes 1-1000 (size-1 axes over-represente
         "int (below, equal to, above the axis size), explicit tuple (random composition, optionally with a zero chunk or not "
         "summing to the size), 'auto'; whole-array specifications -1 and int; limits 1-1e7 (log-uniform, or placed exactly on / "
         "one below / a multiple of the product of the fixed dimensions), byte strings and 'auto' with five dtypes; "
-        "equal_sized_chunks exhaustively for n<=200 plus random n<=1e6 by num_chunks and by chunk_size; chunk_ranges / "
+        "equal_sized_chunks exhaustively for n<=200 plus random n<=3e4 by num_chunks and by chunk_size; chunk_ranges / "
         "iterate_chunk_ranges / generate_chunks on random compositions; non-trivial = at least one dimension split into >=2 "
         "chunks (validate), m>=2 (equal), >=2 blocks (ranges); distinct = distinct case signature")
 CLAUSES = ["sum-equals-shape", "chunks-positive", "spec-respected", "limit-respected", "no-refusal-when-valid-exists",
@@ -33,7 +33,7 @@ CLAUSES = ["sum-equals-shape", "chunks-positive", "spec-respected", "limit-respe
            "equal-sized:too-many-refused", "ranges:contiguous", "ranges:cover", "ranges:sizes",
            "iterate:exactly-once", "generate:contiguous", "pipeline-sum-equals-shape", "pipeline-limit-respected",
            "pipeline-equal-sized", "pipeline-ranges"]
-QUICK = dict(n=6000, time=40)
+QUICK = dict(n=5000, time=30)
 THOROUGH = dict(n=400000, time=240, shards=16)
 EXHAUSTIVE = False
 
@@ -152,7 +152,7 @@ def gen(rng, tier):
     if k < 0.62:
         return gen_validate(rng)
     if k < 0.8:
-        n = int(rng.choice([int(rng.integers(1, 300)), int(rng.integers(1, 10 ** 6))]))
+        n = int(rng.choice([int(rng.integers(1, 300)), int(rng.integers(1, 30000))]))
         if rng.random() < 0.5:
             m = int(rng.integers(1, n + 1)) if rng.random() < 0.85 else int(n + rng.integers(1, 5))
             return {"kind": "equal", "n": n, "m": m}
@@ -527,7 +527,7 @@ def check_pipeline(ctx, case):
             s = abtem.SMatrix(semiangle_cutoff=15.0, energy=100e3, potential=abtem.Potential(atoms, gpts=(g, g)),
                               interpolation=1)
             s.scan(scan=abtem.GridScan(start=(0, 0), end=(1.0, 1.0), gpts=(2, 3)),
-                   detectors=abtem.AnnularDetector(inner=10, outer=30), lazy=True).compute()
+                   detectors=abtem.AnnularDetector(inner=10, outer=30), lazy=True)   # graph construction only
     for k, v in calls.items():
         ctx.monitor("pipeline-" + k + "-calls", v)
     if calls["validate"] == 0:
